@@ -538,6 +538,26 @@ def check_pointwise(case, rec):
         ell = max(float(v), 1e-6 * c.L)
     ks = [kl / ell for kl in case["kl"]]
     lib_S = _call(c, "spectral_density", np.array(ks, dtype=float))
+    if not c.analytic and len(ks) >= 2:
+        # the density follows in-place updates of the model: evaluate, change the rescale factor (and back), evaluate the very
+        # same wave-number array again - it must be what a freshly built model with that state reports
+        import copy as _copy
+
+        karr = np.array(ks, dtype=float)
+        mm = _copy.deepcopy(c.model)
+        with common.quiet():
+            mm.spectral_density(karr)
+            mm.rescale = float(mm.rescale) * 3.0
+            s_upd = np.asarray(mm.spectral_density(karr), dtype=float)
+            fresh = build_model(dict(case["spec"], rescale=float(mm.rescale)))
+            s_new = np.asarray(fresh.spectral_density(karr), dtype=float)
+        rec.label("density_after_inplace_rescale")
+        fin = np.isfinite(s_new) & np.isfinite(s_upd)
+        require(
+            bool(np.all(np.isfinite(s_new) == np.isfinite(s_upd))) and bool(np.allclose(s_upd[fin], s_new[fin], rtol=1e-9, atol=1e-12 * float(np.max(np.abs(s_new[fin]), initial=0.0)))),
+            f"spectral_density after `model.rescale *= 3` on a used model {s_upd.tolist()} differs from a freshly built model with that rescale {s_new.tolist()}",
+            dict(tags, kind="stale_density_after_update"),
+        )
     if c.analytic:
         # input forms of the same wave numbers: integer list / integer array / integer scalar / float list give the float-array result
         ki = [0, 1, 2, 3]
